@@ -625,7 +625,8 @@ def coq_header(acc, narrow):
         "Definition acc (T m : nat) (ex : bool) : bool := nth m (nth (if ex then 0 else 1) (nth T acc_tbl []) []) false.\n"
         "Definition narrow (T m : nat) : list nat := nth m (nth T nar_tbl []) [].\n"
         "Definition pos_of (l : list posn) (v : nat) : posn := nth v l PDefault.\n"
-        "Definition run (l : list posn) (rho : varmap) (b : block) := evaluate acc narrow (pos_of l) rho b 4.\n"
+        f"Definition is_any (m : nat) : bool := m =? {ATOMS.index('Any')}.\n"
+        "Definition run (l : list posn) (rho : varmap) (b : block) := evaluate acc narrow (pos_of l) is_any rho b 4.\n"
     )
 
 
@@ -893,26 +894,11 @@ def fallthrough_after_return(stmts):
     return False
 
 
-def any_conversion_guard(case, call):
-    """guard of finding C20-any-conversion-superset (= hypothesis narrow_id of C20_union_distributes fails):
-    the union argument has an Any member and the body tests some variable with exclude_any=False"""
+def any_union_guard(case, call):
+    """guard of finding C20-any-union-fallthrough (= hypothesis "no Any member" of C20_union_distributes fails):
+    the union argument has an Any member"""
     tys = list(call["pos"]) + [t for _, t in call["kw"]]
-    if not any((not isinstance(t, str)) and "Any" in t[1] for t in tys):
-        return False
-
-    def has_permissive(c):
-        if c[0] == "type":
-            return not c[3]
-        if c[0] == "not":
-            return has_permissive(c[1])
-        if c[0] in ("and", "or"):
-            return any(has_permissive(x) for x in c[1])
-        return False
-
-    def walk(b):
-        return any(s_[0] == "if" and (has_permissive(s_[1]) or walk(s_[2]) or walk(s_[3])) for s_ in b)
-
-    return walk(case["body"])
+    return any((not isinstance(t, str)) and "Any" in t[1] for t in tys)
 
 
 def load_corpus():
@@ -1074,9 +1060,9 @@ def run(tier: str, replay: str | None = None):
                 want = {"rets": sorted(want_r), "errs": sorted(want_e)}
                 if want != dset:
                     sup = set(dset["rets"]) >= want_r and set(dset["errs"]) >= want_e
-                    if any_conversion_guard(case, call) and m is not None and m == dset:
-                        known.append(("C20-any-conversion-superset", ci, ki))
-                    elif any_conversion_guard(case, call) and m is None and not model_ok:
+                    if sup and any_union_guard(case, call) and m is not None and m == dset:
+                        known.append(("C20-any-union-fallthrough", ci, ki))
+                    elif sup and any_union_guard(case, call) and m is None and not model_ok:
                         undecided += 1
                     else:
                         failing.append((ci, ki, "union call is not the union of the member calls" + (" (superset)" if sup else " (members' results missing: unsound)"), dset, want))
